@@ -25,6 +25,10 @@ def check(ctx):
     # rows are rebuilt key by key (simultaneous mapping), values untouched
     from checks import C15
     C15.select_delete_rename(ctx)
+    # 2b. rows re-read from a stream file / reused checkpoint carry values of their declared types only if every tagged value
+    #     is decoded back (the decoder swallows parse errors and returns the tag dict): writer / reader agreement of the encoding
+    from checks import C07
+    C07.ejson_agreement(ctx)
     # 3. value types that are a table
     abstypes.r18_join_aggregators(ctx)
     abstypes.r18_computed_field(ctx)
